@@ -140,9 +140,9 @@ fn leaf_extremes(r: &mut StdRng, tmpl: &Message, max_leaves: usize) -> Vec<Messa
     out
 }
 
-/// every numeric / optional leaf in turn at one extreme value (the extreme rotates with the leaf index and `round`),
-/// at most `budget` messages
-fn leaf_extremes_systematic(tmpl: &Message, budget: usize, round: usize) -> Vec<Message> {
+/// every numeric leaf at every one of 8 extreme values (small messages), a rotating subset of (leaf, extreme)
+/// pairs for large ones: at most ~`work` leaf-visits worth of messages
+fn leaf_extremes_systematic(tmpl: &Message, work: usize, round: usize) -> Vec<Message> {
     let base = msg_to_v(tmpl);
     let mut leaves: Vec<Vec<String>> = vec![];
     let mut p = vec![];
@@ -154,14 +154,13 @@ fn leaf_extremes_systematic(tmpl: &Message, budget: usize, round: usize) -> Vec<
     if leaves.is_empty() {
         return out;
     }
-    // small messages: every leaf; large ones (MSM7: hundreds of leaves) only a few per round
-    let budget = budget.min((2400 / leaves.len()).max(5));
-    let step = (leaves.len() / budget.max(1)).max(1);
-    let mut li = round % step;
-    let mut n = 0usize;
-    while li < leaves.len() && out.len() < budget {
-        let target = leaves[li].clone();
-        let which = (n + round) % 8;
+    let pairs = leaves.len() * 5;
+    let budget = (work / leaves.len()).max(6).min(pairs);
+    // `budget` (leaf, extreme) pairs spread evenly over all pairs; `round` shifts the selection
+    for i in 0..budget {
+        let k = (i * pairs / budget + round) % pairs;
+        let target = leaves[k / 5].clone();
+        let which = k % 5;
         let mut v = base.clone();
         let mut p = vec![];
         v.walk_mut(&mut p, &mut |path, node| {
@@ -170,10 +169,10 @@ fn leaf_extremes_systematic(tmpl: &Message, budget: usize, round: usize) -> Vec<
                     V::Int { signed, bits, v } => {
                         let hi = if *signed { (1i128 << (*bits - 1)) - 1 } else { (1i128 << *bits) - 1 };
                         let lo = if *signed { -(1i128 << (*bits - 1)) } else { 0 };
-                        *v = [hi, lo, hi - 1, lo + 1, 0, hi / 2 + 1, 1, hi][which].clamp(lo, hi);
+                        *v = [hi, lo, 0, hi / 2 + 1, 1][which].clamp(lo, hi);
                     }
-                    V::F32(f) => *f = [f32::NEG_INFINITY, f32::INFINITY, f32::MIN, f32::MAX, f32::NAN, -1e30, 1e30, -1e12][which],
-                    V::F64(f) => *f = [f64::NEG_INFINITY, f64::INFINITY, f64::MIN, f64::MAX, f64::NAN, -1e300, 1e300, -1e12][which],
+                    V::F32(f) => *f = [f32::NEG_INFINITY, f32::INFINITY, f32::NAN, f32::MIN, f32::MAX][which],
+                    V::F64(f) => *f = [f64::NEG_INFINITY, f64::INFINITY, f64::NAN, f64::MIN, f64::MAX][which],
                     _ => {}
                 }
             }
@@ -181,21 +180,23 @@ fn leaf_extremes_systematic(tmpl: &Message, budget: usize, round: usize) -> Vec<
         if let Ok(m) = v_to_msg(&v) {
             out.push(m);
         }
-        li += step;
-        n += 1;
     }
     out
 }
 
 /// message stream for the build drivers: normal form, mutated, single-leaf extremes, specials, wire-less
 pub fn message_stream(r: &mut StdRng, nums: &[u16], per_type: usize, nan_ok: bool) -> Vec<Message> {
+    message_stream_w(r, nums, per_type, nan_ok, 10000)
+}
+
+pub fn message_stream_w(r: &mut StdRng, nums: &[u16], per_type: usize, nan_ok: bool, work: usize) -> Vec<Message> {
     let mut out = vec![];
     for &n in nums {
         let mut made = 0;
         // systematic part: each numeric leaf of one normal-form message at an extreme value
         for round in 0..(per_type / 8).max(1) {
             if let Some(t) = template(r, n) {
-                for m in leaf_extremes_systematic(&t, per_type.max(8) * 3, round) {
+                for m in leaf_extremes_systematic(&t, work, round) {
                     out.push(m);
                 }
             }
@@ -231,7 +232,7 @@ pub fn rec_build(a: &Args, out: &mut Out) {
     let mut r = rng(a.seed(), 9);
     let nums = supported_numbers();
     let per_type = a.num("per_type", 12) as usize;
-    let msgs = message_stream(&mut r, &nums, per_type, true);
+    let msgs = message_stream_w(&mut r, &nums, per_type, true, a.num("work", 10000) as usize);
     for m in msgs {
         out.emit(json!({"ev": "NewBuilder"}));
         let mut b = MessageBuilder::new();
@@ -245,7 +246,7 @@ pub fn rec_history(a: &Args, out: &mut Out) {
     let nums = supported_numbers();
     let histories = a.num("histories", 20) as usize;
     let calls = a.num("calls", 120) as usize;
-    let pool = message_stream(&mut r, &nums, 6, true);
+    let pool = message_stream_w(&mut r, &nums, 6, true, 1500);
     // long and short, failing early and late: index a few classes for steering
     for _ in 0..histories {
         out.emit(json!({"ev": "NewBuilder"}));
@@ -376,4 +377,17 @@ pub fn replay_histories(a: &Args, out: &mut Out) {
             }
         }
     }
+}
+
+pub fn debug_extremes(a: &Args) {
+    let mut r = rng(a.seed(), 9);
+    let num = a.num("num", 1020) as u16;
+    let t = template(&mut r, num).unwrap();
+    let ms = leaf_extremes_systematic(&t, 16000, 0);
+    eprintln!("{} messages", ms.len());
+    let base = msg_to_v(&t);
+    let mut n = 0;
+    base.walk(&mut vec![], &mut |p, v| { if matches!(v, V::Int{..}|V::F32(_)|V::F64(_)) { n += 1; if n < 5 { eprintln!("{:?} {:?}", p, v); } } });
+    eprintln!("{} leaves", n);
+    for m in ms.iter().take(3) { eprintln!("{:?}", msg_to_v(m).field("tau_c_s")); }
 }
